@@ -23,6 +23,7 @@ import (
 	"go.uber.org/zap"
 
 	"github.com/uber/kraken/core"
+	"github.com/uber/kraken/lib/store"
 	"github.com/uber/kraken/origin/blobclient"
 	"github.com/uber/kraken/utils/httputil"
 	"github.com/uber/kraken/utils/log"
@@ -56,6 +57,12 @@ func c35ParseScript(tok string) ([]c35Resp, bool) {
 			out = append(out, c35Resp{kind: "full"})
 		case t == "fullc":
 			out = append(out, c35Resp{kind: "full", chunked: true})
+		case strings.HasPrefix(t, "e"):
+			n, err := strconv.Atoi(t[1:])
+			if err != nil || n < 0 {
+				return nil, false
+			}
+			out = append(out, c35Resp{kind: "eof", n: n})
 		case strings.HasPrefix(t, "k"):
 			n, err := strconv.Atoi(t[1:])
 			if err != nil || n < 0 {
@@ -132,6 +139,26 @@ func (o *c35Origin) ServeHTTP(w http.ResponseWriter, r *http.Request) {
 		if resp.n != 204 {
 			w.Write([]byte("scripted"))
 		}
+	case "eof":
+		// a body delimited by the end of the connection only (no Content-Length, no chunked
+		// framing, as an HTTP/1.0 upstream or proxy answers): written raw on the hijacked connection
+		conn, brw, err := w.(http.Hijacker).Hijack()
+		if err != nil {
+			panic(err)
+		}
+		n := resp.n
+		if n > len(blob) {
+			n = len(blob)
+		}
+		brw.WriteString("HTTP/1.1 200 OK\r\nContent-Type: application/octet-stream\r\nConnection: close\r\n\r\n")
+		brw.Write(blob[:n])
+		brw.Flush()
+		if tc, ok := conn.(*net.TCPConn); ok {
+			tc.CloseWrite()
+			conn.SetReadDeadline(time.Now().Add(30 * time.Second))
+			io.Copy(io.Discard, conn)
+		}
+		conn.Close()
 	case "cut", "full":
 		w.Header().Set("Content-Type", "application/octet-stream")
 		if resp.chunked {
@@ -273,6 +300,11 @@ var c35Pool []*c35Origin
 
 var c35Broken int
 
+var (
+	c35CAS  *store.CAStore
+	c35CASn int
+)
+
 // c35Run executes one case on the real code and returns its transcript records (nil: malformed).
 // pooled=false gives the case its own servers (cases that run concurrently).
 func c35Run(c verifh.Case, tmp string, pooled bool) (recs []c35Rec, fails []string) {
@@ -391,6 +423,40 @@ func c35Run2(c verifh.Case, tmp string, pooled bool) (recs []c35Rec, fails []str
 					if err != nil {
 						panic(err)
 					}
+					return b, int(at)
+				}
+			case kind == "seek" && impl == "castore":
+				// the production destination of rw_transferer.downloadFromOrigin: an upload file of a CAStore
+				if c35CAS == nil {
+					c35CAS, _ = store.CAStoreFixture()
+				}
+				c35CASn++
+				name := fmt.Sprintf("verif-c35-%d", c35CASn)
+				if err := c35CAS.CreateUploadFile(name, 0); err != nil {
+					panic(err)
+				}
+				f, err := c35CAS.GetUploadFileReadWriter(name)
+				if err != nil {
+					panic(err)
+				}
+				defer f.Close()
+				if _, err := f.Write(pre); err != nil {
+					panic(err)
+				}
+				if _, err := f.Seek(int64(pos), io.SeekStart); err != nil {
+					panic(err)
+				}
+				dst = f
+				final = func() ([]byte, int) {
+					at, _ := f.Seek(0, io.SeekCurrent)
+					if _, err := f.Seek(0, io.SeekStart); err != nil {
+						panic(err)
+					}
+					b, err := io.ReadAll(f)
+					if err != nil {
+						panic(err)
+					}
+					c35CAS.DeleteUploadFile(name)
 					return b, int(at)
 				}
 			default:
@@ -547,7 +613,7 @@ func TestVerif_C35(t *testing.T) {
 		pos        int
 	}
 	dsts := []dk{{"plain", "buf", nil, 0}, {"seek", "mem", nil, 0}, {"plain", "writer", []byte("pp"), 0},
-		{"seek", "mem", []byte("0123456789"), 3}, {"seek", "os", []byte("abc"), 3}}
+		{"seek", "mem", []byte("0123456789"), 3}, {"seek", "os", []byte("abc"), 3}, {"seek", "castore", []byte("xy"), 1}}
 	maxN := verifh.Scale(3, 4)
 	var rec func(prefix []string, n int)
 	rec = func(prefix []string, n int) {
@@ -567,6 +633,32 @@ func TestVerif_C35(t *testing.T) {
 		}
 	}
 	rec(nil, maxN)
+
+	// (a1') a 40 KiB blob (more than one io.Copy buffer: every partial body beyond 32 KiB reaches the
+	// destination in at least two Write calls) with cuts at 1, 4097, 32769, 40000, seekable destinations
+	big := make([]byte, 40*1024+7)
+	for i := range big {
+		big[i] = byte(i*31 + i/251)
+	}
+	bigAlpha := []string{"c1", "c4097", "c32769", "k32769", "k40000", "c40000", "net", "s503", "full", "fullc"}
+	for _, a := range bigAlpha {
+		for _, b := range bigAlpha {
+			for _, d := range []dk{{"seek", "mem", []byte("0123456789"), 3}, {"seek", "os", nil, 0}, {"seek", "castore", nil, 0}} {
+				if (a == "full" || a == "fullc") || (d.impl != "mem" && b != "full" && b != "fullc") {
+					continue
+				}
+				gen = append(gen, c35Case("cluster", d.kind, d.impl, d.pre, d.pos, big, 0, "ok", []string{a, b, "full"}))
+				tr.Count("bigblob_cluster_cases", 1)
+			}
+		}
+	}
+	// (a1'') a close-delimited body cut short is reported as success (known finding); complete ones are fine
+	for _, sc := range [][]string{{"e5"}, {"e9"}, {"c2", "e5"}, {"s503", "e5"}, {"e2"}, {"c2", "e3"}, {"e0"}} {
+		for _, d := range dsts[:2] {
+			gen = append(gen, c35Case("cluster", d.kind, d.impl, d.pre, d.pos, blob, 0, "ok", sc))
+			tr.Count("close_delimited_cases", 1)
+		}
+	}
 
 	// (a2) entry=poll (scripted backoff, no sleeping): two origins, scripts up to length 2 incl. 202
 	alphaP := []string{"s202", "net", "s404", "s500", "c3", "full", "k3"}
@@ -630,7 +722,7 @@ func TestVerif_C35(t *testing.T) {
 		}
 		d := dk{"plain", r.Pick("buf", "writer"), nil, 0}
 		if r.Chance(1, 2) {
-			d = dk{"seek", r.Pick("mem", "mem", "os"), nil, 0}
+			d = dk{"seek", r.Pick("mem", "mem", "os", "castore"), nil, 0}
 		}
 		if r.Chance(1, 3) {
 			d.pre = r.Bytes(r.Intn(60))
@@ -669,7 +761,11 @@ func TestVerif_C35(t *testing.T) {
 				case 4, 5, 6:
 					toks = append(toks, r.Pick("c", "k")+strconv.Itoa(r.Intn(len(bl)+2)))
 				default:
-					toks = append(toks, r.Pick("full", "fullc"))
+					if r.Chance(1, 12) {
+						toks = append(toks, "e"+strconv.Itoa(len(bl)+r.Intn(2)))
+					} else {
+						toks = append(toks, r.Pick("full", "fullc"))
+					}
 				}
 			}
 			sc = append(sc, verifh.List(toks))
